@@ -110,13 +110,14 @@ fn main() {
             if args.u64("shard", 0) == 0 { scale::run_hugecap(&mut out); }
             emit(&args, stats_json(&out).set("cmd", J::s("bigcap")));
         }
-        "churn" | "hashscale" | "interleave" | "realheap" | "aliaskeys" | "modelrun" => {
+        "churn" | "hashscale" | "interleave" | "realheap" | "aliaskeys" | "modelrun" | "clonefrom" => {
             let mut out = engine::RunOut::new();
             let seed = args.u64("seed", 0);
             match args.cmd.as_str() {
                 "churn" => scale::run_churn(seed, args.u64("ops", 1_000_000), &mut out),
                 "hashscale" => { scale::run_hashscale(seed, args.u64("rounds", 2000), &mut out); if args.u64("shard", 0) == 0 { scale::run_hashscale_giant(args.u64("giant", if args.u64("rounds", 2000) >= 50_000 { 9_000_000 } else { 5_000_000 }) as usize, &mut out); } }
                 "interleave" => scale::run_interleave(seed, args.u64("events", 100_000), &mut out),
+                "clonefrom" => scale::run_clonefrom(seed, args.u64("events", 100_000), &mut out),
                 "modelrun" => lruverif::modelrun::run_model(seed, args.u64("events", 100_000), &mut out),
                 "aliaskeys" => { let ev = args.u64("events", 100_000); lruverif::aliaskeys::run_aliaskeys(seed, ev, &mut out); lruverif::aliaskeys::run_pathkeys(seed, ev / 4, &mut out); }
                 _ => scale::run_realheap(seed, args.u64("events", 100_000), &mut out),
